@@ -24,7 +24,7 @@ import (
 var simCountHook func()
 
 func init() {
-	register(&Scenario{Name: "sysfault", Props: []string{"C03", "C13", "C01"}, Kind: "system", Run: runSysFault})
+	register(&Scenario{Name: "sysfault", Props: []string{"C03", "C13", "C01", "C15"}, Kind: "system", Run: runSysFault})
 	// innermost counting plugin: requests that reached the balancer (public registration API)
 	plugins.RegisterBuiltin("sim-count", func(name string, cfg map[string]interface{}) (plugins.Middleware, error) {
 		return func(next http.Handler) http.Handler {
@@ -295,6 +295,17 @@ func runSysFault(x *X) {
 		// client as a complete one: the client must be able to tell, whatever the framing
 		if (faults[i] == "short-body" || faults[i] == "stall-mid-body") && ex.method != "HEAD" && ex.resp != nil && ex.got != nil && ex.got.status == 200 {
 			if ex.got.err == "" {
+				acceptsGzip := false
+				for _, kv := range ex.hdr {
+					if kv.K == "Accept-Encoding" {
+						acceptsGzip = true
+					}
+				}
+				if withGzip && acceptsGzip {
+					// the gzip plugin had the response in its buffer: whatever it does with a body that
+					// never ended, the client must not get a well-formed answer made of a part of it
+					x.Violate("C15", "C15/truncated-response-presented-as-complete{"+faults[i]+","+ex.resp.framing+"}", "exchange %d (gzip plugin in the chain, client accepts gzip): the backend ended its %s-framed response early (fault %s); the client received status 200, Content-Encoding %q and %d body bytes followed by a clean end of the response", ex.id, ex.resp.framing, faults[i], ex.got.hdr.Get("Content-Encoding"), len(ex.got.body))
+				}
 				x.Violate("C01", "C01/truncated-response-presented-as-complete{"+faults[i]+","+ex.resp.framing+"}", "exchange %d: the backend ended its %s-framed response early (fault %s); the client received status 200 and %d body bytes followed by a clean end of the response", ex.id, ex.resp.framing, faults[i], len(ex.got.body))
 			} else {
 				x.Probe("truncated-response-seen-as-truncated")
